@@ -19,6 +19,8 @@ type runReq struct {
 	RunDir string   `json:"run_dir"`
 	DSSE   bool     `json:"dsse"`
 	Norm   bool     `json:"norm"` // line normalisation switch of InTotoRun (concerns artifacts only)
+	// Prelude: commands run through RunCommand in this process before the call under test
+	Prelude [][]string `json:"prelude,omitempty"`
 }
 
 type runResp struct {
@@ -106,6 +108,9 @@ func dispatch(mode string, args []string) bool {
 					resp.Panic = fmt.Sprint(p)
 				}
 			}()
+			for _, argv := range req.Prelude {
+				_, _ = intoto.RunCommand(argv, req.RunDir)
+			}
 			switch req.Mode {
 			case "runcommand":
 				m, err := intoto.RunCommand(req.Args, req.RunDir)
